@@ -8,7 +8,7 @@ SIZES = {"quick": 12000, "thorough": 240000}
 BATCH = 3000
 SHRINK_BUDGET = 400
 RULE = ("each case = the same traffic twice (phase A with reload ops; the op `phase B` clears all module state and runs the recorded "
-        "ops of phase A again without the reloads, at the same virtual times, answering with the list of its decisions): 1-4 resources, initial circuit-breaker (error count / error ratio / slow-request ratio, requests with a response time), flow (throttling, warm-up, reject) and hotspot (QPS reject and throttling, concurrency metric, "
+        "ops of phase A again without the reloads, at the same virtual times, answering with the list of its decisions): 1-4 resources, initial circuit-breaker (error count / error ratio / slow-request ratio, requests with a response time), flow (throttling, warm-up, reject, memory-adaptive x reject/throttling with a `mem` reading) and hotspot (QPS reject and throttling, concurrency metric, "
         "per-value items) rule lists, entries with/without error (entry+exit in one op, or `in`/`out` pairs that stay in flight across reloads) at time steps from {0,1,…,retry timeout, window length}, 1-3 reloads through "
         "LoadRules / LoadRulesOfResource whose edits are add / remove / modify / duplicate / reorder / never-refusing sibling "
         "before or after an unchanged rule; non-trivial = a reload happened while some controller held state (a block or a wait "
@@ -38,8 +38,13 @@ def flow_rule(rng, rid, res, inert=False):
         maxq = rng.choice([0, 0, 100, 500, 2000])
         stativ = rng.choice([0, 0, 1000, 2000, 500])
         return [rid, res, 0, 1, thr, 0, 0, maxq, 0, 0, stativ]
+    if k < 0.62:     # memory adaptive (x reject / x throttling): the threshold follows the `mem` reading between two water marks
+        cb = rng.choice([0, 1, 1])
+        return [rid, res, 2, cb, rng.choice([0, 7]), 0, 0, rng.choice([0, 100, 500, 2000]) if cb else 0, 0, 0,
+                rng.choice([0, 0, 1000, 2000]) if cb else rng.choice([0, 0, 1000, 3000]),
+                rng.choice([5, 10, 100]), rng.choice([1, 2, 3]), rng.choice([1000, 2000]), rng.choice([3000, 4000])]
     stativ = rng.choice([0, 0, 0, 1000, 2000, 500, 3000, 3000, 700, 20000])
-    if k < 0.75:     # direct + reject
+    if k < 0.78:     # direct + reject
         return [rid, res, 0, 0, rng.choice([0, 1, 2, 3, 5, 10]), 0, 0, 0, 0, 0, stativ]
     # warm-up + reject; cold factor 0 = left to default
     return [rid, res, 1, 0, rng.choice([2, 3, 5, 10, 20, 100]), 0, 0, 0, rng.choice([1, 2, 5, 10]), rng.choice([0, 2, 3, 3, 5]), stativ]
@@ -130,6 +135,10 @@ class G:
                         dom[7] = [0, 100, 500, 2000]
                     if r[2] == 1:
                         dom[8], dom[9] = [1, 2, 5, 10], [0, 2, 3, 5]
+                    if r[2] == 2:
+                        dom = {11: [5, 10, 100], 12: [1, 2, 3], 13: [1000, 2000], 14: [3000, 4000], 10: [0, 1000, 2000]}
+                        if r[3] == 1:
+                            dom[7] = [0, 100, 500, 2000]
                     if r[3] == 0 and r[2] == 0 and r[4] >= BIG:
                         dom = {4: [BIG, BIG + 1, BIG + 5]}
                 else:
@@ -194,6 +203,9 @@ def gen_case(rng, cid):
         A.append(f"{m}.load {enc(rules)}")
     live, nh = [], 0
     pin = rng.choice([0.0, 0.0, 0.25, 0.5]) if "hot" not in mods else rng.choice([0.0, 0.3, 0.5, 0.7])
+    MEM = [500, 1000, 1500, 2000, 2500, 3000, 3500, 5000]
+    if "flow" in mods and rng.random() < 0.8:
+        A.insert(1, f"mem {rng.choice(MEM)}")
     nreload = rng.choice([1, 1, 2, 3])
     nseg = rng.randint(2, 6)
     reload_at = sorted(rng.sample(range(1, nseg + 1), min(nreload, nseg)))
@@ -211,6 +223,8 @@ def gen_case(rng, cid):
                 cur[m] = new
         hot = rng.randint(1, nres)
         perr = rng.choice([0.0, 0.3, 0.7, 1.0])
+        if "flow" in mods and rng.random() < 0.08:
+            A.append(f"mem {rng.choice(MEM)}")
         for _ in range(rng.randint(1, 12)):
             if rng.random() < 0.45:
                 now += rng.choice(steps)
@@ -301,6 +315,81 @@ def gen_order(rng, cid):
     return Case(cid, A + ["phase B"], tags=("order-slice",))
 
 
+def gen_wide(rng, cid):
+    """a resource with 9-13 rules of one module (hotspot QPS reject / circuit breaker), the strict ones late in the list;
+    state is built up, then a reload (mostly per-resource) leaves them unchanged and only adds / modifies a never-refusing
+    rule at the end: every old controller, also the 9th and later, must be found again"""
+    g = G(rng)
+    now = T0 + rng.randint(0, 10 ** 6)
+    mod = rng.choice(["hot", "hot", "cb"])
+    n = rng.randint(9, 13)
+    rules = []
+    for i in range(n):
+        strict = i >= rng.choice([7, 8, 8, n - 1])
+        if mod == "hot":
+            rules.append([g.rid(), 1, 1, 0, 0, 1 if strict else rng.choice([3, 5]), 0, rng.choice([0, 1]), rng.choice([1, 2, 10]),
+                          rng.choice([0, 100]), rng.choice([0, 2]), 9, 7])
+        else:
+            rules.append([g.rid(), 1, 2, 60000, rng.choice([0, 1]), rng.choice([1000, 2000, 10000]), rng.choice([0, 1, 2]), 0,
+                          1 if strict else rng.choice([3, 5]), rng.choice([0, 1])])
+    inert = g.mk(mod, 1, inert=True)
+    if rng.random() < 0.5:
+        rules.append(inert)
+    A = [f"t {now}", f"{mod}.load {enc(rules)}"]
+    ent = (lambda: f"e 1 {rng.choice([0, 1, 1])}") if mod == "cb" else (lambda: f"e 1 0 {rng.choice([1, 1, 2])}")
+    for _ in range(rng.randint(2, 5)):
+        A.append(ent())
+    new = [list(r) for r in rules]
+    if inert in rules and rng.random() < 0.6:
+        new[-1][3 if mod == "cb" else 5] += 1      # modify the never-refusing rule (cb: retry, hot: threshold)
+    else:
+        new.append(g.mk(mod, 1, inert=True))
+    A.append(f"{mod}.reloadres 1 {enc(new)}" if rng.random() < 0.7 else f"{mod}.reload {enc(new)}")
+    for _ in range(rng.randint(2, 6)):
+        if rng.random() < 0.3:
+            now += rng.choice([1, 100, 500])
+            A.append(f"t {now}")
+        A.append(ent())
+    return Case(cid, A + ["phase B"], tags=("wide-slice",))
+
+
+def gen_adaptive(rng, cid):
+    """memory-adaptive flow rules (x throttling: the queue is state; x reject on an own statistic) under a `mem` reading
+    below / between / above the water marks; the reload leaves the rule unchanged (something else changes), or modifies
+    exactly one adaptive field"""
+    g = G(rng)
+    now = T0 + rng.randint(0, 10 ** 6)
+    cb = rng.choice([1, 1, 0])
+    a = [g.rid(), 1, 2, cb, 0, 0, 0, rng.choice([100, 500, 2000]) if cb else 0, 0, 0, rng.choice([0, 1000]) if cb else rng.choice([0, 3000]),
+         rng.choice([5, 10]), rng.choice([1, 2, 3]), rng.choice([1000, 2000]), rng.choice([3000, 4000])]
+    extra = [g.mk("flow", 2)]
+    MEM = [500, 1000, 1500, 2500, 3000, 3500, 5000]
+    A = [f"t {now}", f"mem {rng.choice(MEM)}", f"flow.load {enc([a] + extra)}"]
+    def traffic(k):
+        nonlocal now
+        for _ in range(k):
+            if rng.random() < 0.35:
+                now += rng.choice([1, 50, 100, 200, 500, 1000])
+                A.append(f"t {now}")
+            if rng.random() < 0.1:
+                A.append(f"mem {rng.choice(MEM)}")
+            A.append("e 1 0")
+    traffic(rng.randint(2, 8))
+    for _ in range(rng.choice([1, 1, 2])):
+        b = list(a)
+        kind = rng.choice(["same", "same", "field"])
+        if kind == "field":
+            f = rng.choice([11, 12, 13, 14])
+            b[f] = rng.choice([v for v in {11: [5, 10, 100], 12: [1, 2, 3], 13: [1000, 2000], 14: [3000, 4000]}[f] if v != b[f]])
+        ex2 = [list(extra[0])]
+        ex2[0][4] += 1
+        new = rng.choice([[b] + ex2, ex2 + [b], [b, g.mk("flow", 1, inert=True)] + extra, [g.mk("flow", 3), b] + extra])
+        A.append(f"flow.reload {enc(new)}" if rng.random() < 0.6 else f"flow.reloadres 1 {enc([r for r in new if r[1] == 1] + ([g.mk('flow', 1, inert=True)] if len([r for r in new if r[1] == 1]) == 1 else []))}")
+        a, extra = b, [r for r in new if r[1] == 2][:1] or extra
+        traffic(rng.randint(2, 8))
+    return Case(cid, A + ["phase B"], tags=("adaptive-slice",))
+
+
 def gen_conc(rng, cid):
     """hotspot concurrency rule with calls in flight across a reload that leaves the rule unchanged (nil items: stat-reuse
     path), modifies a field its decisions never look at (BurstCount / MaxQueueingTimeMs), or modifies the threshold"""
@@ -348,6 +437,10 @@ def gen(ctx, n):
             out.append(gen_conc(ctx.rng, f"c{ctx.seed}-{i}"))
         elif i % 50 == 11:
             out.append(gen_order(ctx.rng, f"o{ctx.seed}-{i}"))
+        elif i % 50 == 44:
+            out.append(gen_adaptive(ctx.rng, f"a{ctx.seed}-{i}"))
+        elif i % 50 == 36:
+            out.append(gen_wide(ctx.rng, f"n{ctx.seed}-{i}"))
         elif i % 25 == 7:
             out.append(gen_steal(ctx.rng, f"k{ctx.seed}-{i}"))
         elif i % 25 == 16:
